@@ -2,7 +2,9 @@
    nodes.rs NodeRrsets / ZoneNode / NodeChildren::{rollback,remove_all}, ZoneApex::{read,write},
    write.rs WriteZone::{open,commit,publish_new_zone_version,drop},
    WriteNode::{update_child,update_rrset,remove_rrset,make_regular,make_cname,remove_all,check_nx_domain},
-   read.rs ReadZone::{query,walk} for the apex and its direct children.
+   read.rs ReadZone::{query,walk} for the apex and its direct children,
+   nodes.rs ZoneNode::exists (a child is followed only if its name exists in the
+   reader's version).
 
    Representation.  `Versioned.data : Vec<(Version, Option<T>)>` is a list whose HEAD is
    the vector's LAST element (push = cons, pop = tail, last_mut = head,
@@ -316,11 +318,27 @@ Inductive answer :=
 | AData (rr : N)
 | ACname (id : N).
 
+(* ZoneNode::exists(version): the node owns RRsets or a CNAME in that version
+   (or a name below it exists -- the model has no grandchildren) *)
+Definition n_exists (n : znode) (v : N) : bool :=
+  (if exists_counts_rrsets then negb (rs_is_empty (n_rrsets n) v) else false) ||
+  (if exists_counts_cname then match n_with_special n v with Some (SCname _) => true | _ => false end else false).
+
+(* query_node_here_but_not_below: the NxDomain marker is treated like None *)
 Definition node_here (n : znode) (v t : N) (soa : option N) : answer :=
   match n_with_special n v with
   | Some (SCname id) => ACname id
-  | Some SNx => ANx soa
+  | Some SNx => if nx_marker_answers_like_regular
+                then match rs_get (n_rrsets n) t v with Some rr => AData rr | None => ANoData soa end
+                else ANx soa
   | None => match rs_get (n_rrsets n) t v with Some rr => AData rr | None => ANoData soa end
+  end.
+
+(* NodeChildren::with(label) filtered by exists(version) *)
+Definition child_at (ns : list (N * znode)) (name v : N) : option znode :=
+  match al_get name ns with
+  | Some n => if query_follows_only_existing_children then (if n_exists n v then Some n else None) else Some n
+  | None => None
   end.
 
 Definition query (s : zstate) (v name t : N) : answer :=
@@ -328,9 +346,9 @@ Definition query (s : zstate) (v name t : N) : answer :=
   if name =? 0 then
     match rs_get (z_apex s) t v with Some rr => AData rr | None => ANoData soa end
   else
-    match al_get name (z_nodes s) with
+    match child_at (z_nodes s) name v with
     | Some n => node_here n v t soa
-    | None => match al_get 1 (z_nodes s) with
+    | None => match child_at (z_nodes s) 1 v with
               | Some n => node_here n v t soa
               | None => ANx soa
               end
